@@ -509,12 +509,12 @@ func Harness_C04_RunnerRedeploy() {
 			verif.Assert(seen[rec] == 0, "records-before-the-checkpointed-position-not-delivered-again")
 		}
 	}
-	// known finding F31: HandleDeploy does not stop the previous deployment's loop, whose pending
-	// read of the old reader is still keyed and routed - to the new operators
-	verif.Reached()
+	// F31 (fixed): HandleDeploy did not stop the previous deployment's loop, whose pending read of
+	// the old reader was still keyed and routed - to the new operators
 	if verif.Param("STALE", 1) == 1 { // not part of the routing property (C05 registration)
-		verif.AssertKnown(stale == 0, "no-record-of-the-previous-deployment-reaches-the-new-operators", "F31", true)
+		verif.Assert(stale == 0, "no-record-of-the-previous-deployment-reaches-the-new-operators")
 	}
+	verif.Reached()
 }
 
 // verifSlowKeyer is the key-by stage with back-pressure: its first `hold` calls block until
